@@ -810,19 +810,22 @@ class SymbolTable():
             Container that is not represented in this table.
 
         '''
-        if old_sym.is_import:
-            # This symbol is imported from a Container so should
+        self_sym = self.lookup(old_sym.name)
+        if old_sym.is_import and self_sym.is_import:
+            # check_for_clashes() has established that both symbols are
+            # imported in the same way so there is nothing to add. However,
+            # if the import is from a Container in other_table then it should
             # already have been updated so as to be imported from the
             # corresponding container in this table.
-            self_csym = self.lookup(old_sym.interface.container_symbol.name)
-            if old_sym.interface.container_symbol is self_csym:
-                return
-            raise InternalError(
-                f"Symbol '{old_sym.name}' imported from '{self_csym.name}' "
-                f"has not been updated to refer to the corresponding "
-                f"container in the current table.")
+            csym = old_sym.interface.container_symbol
+            if (csym in other_table.containersymbols and
+                    self.lookup(csym.name) is not csym):
+                raise InternalError(
+                    f"Symbol '{old_sym.name}' imported from '{csym.name}' "
+                    f"has not been updated to refer to the corresponding "
+                    f"container in the current table.")
+            return
 
-        self_sym = self.lookup(old_sym.name)
         if old_sym.is_unresolved and self_sym.is_unresolved:
             # The clashing symbols are both unresolved so we ASSUME that
             # check_for_clashes has previously determined that they must
